@@ -147,3 +147,19 @@ def kindmix_sources():
             out.append((f"gen/implmix_{''.join(seq)}", f"impl S {{\n{body}\n}}\n",
                         {"reorder_impl_items": True}))
     return out
+
+
+def macro_sources():
+    """Macro-call statements whose argument layout flips (one line / format-string special
+    layout / vertical) as a padding identifier grows.  -> (name, text)"""
+    out = []
+    macs = ["assert", "assert_eq", "assert_ne", "debug_assert_eq", "write", "writeln", "println",
+            "format", "vec", "matches", "panic", "my_mac", "info", "eprintln"]
+    for m in macs:
+        for n in (1, 9, 17, 25, 33, 41, 49):
+            a = "a" * n
+            out.append((f"gen/mac_{m}_{n}",
+                        f"fn f() {{\n    {m}!({a}, bbbbbbbb, \"text {{}} {{}}\", cccccccc, dddddddd);\n}}\n"))
+            out.append((f"gen/macexpr_{m}_{n}",
+                        f"fn f() {{\n    let v = {m}!({a}, bbbbbbbb, \"text {{}} {{}}\", cccccccc, dddddddd);\n}}\n"))
+    return out
